@@ -80,7 +80,7 @@ impl Property for C40 {
         ]
     }
     fn cases(&self, tier: Tier) -> u32 {
-        tier.pick(24_000, 2_000_000)
+        tier.pick(72_000, 2_000_000)
     }
     fn strategy(&self, tier: Tier) -> BoxedStrategy<Case> {
         let base = std::sync::Arc::new(bundled_schema());
